@@ -22,7 +22,7 @@ package samlsp
 //@ ensures[C16] marker: err == nil ==> sessionClaims(result).SAMLSession
 
 //@ contract (JWTSessionCodec).New
-//@ requires[cfg] a: assertion != nil
+//@ requires a: assertion != nil
 //@ ensures[C16] ok: err == nil && isSessionClaims(result)
 //@ -- the lifetime is fixed at mint time: exp = now + MaxAge, iat = nbf = now
 //@ ensures[C16] lifetime: sessionClaims(result).ExpiresAt == saml.TimeNow().Add(c.MaxAge).Unix() &&
@@ -129,7 +129,7 @@ package samlsp
 //@ -- filled completely from the configured source (io.ReadFull: one Read may come up short); the panic on a failing
 //@ -- source is an environment fault and not counted
 //@ contract randomBytes
-//@ requires[cfg] n: n >= 0
+//@ requires n: n >= 0
 //@ ensures[C17] length: len(result) == n
 //@ assert@call[C17] io.ReadFull #1 (r io.Reader, buf []byte) uses rv []byte fills_all_from_configured_source:
 //@    r == saml.RandReader && sameBytes(buf, rv) && len(buf) == n
